@@ -197,6 +197,11 @@ class Reg:
     """Classes realised for one case: id -> class, class -> id; owns a throw-away module."""
 
     def __init__(self, mixin: bool = True, base=None):
+        # typing caches generic aliases by *equality* of their arguments and Union equality ignores
+        # member order, so List[Union[a, b]] would come back as an earlier List[Union[b, a]]:
+        # the declaration order of union members must not depend on the harness's history
+        for _f in getattr(typing, "_cleanups", []):
+            _f()
         _MOD_COUNTER[0] += 1
         self.modname = f"mashu_verif_case_{_MOD_COUNTER[0]}"
         self.mod = types.ModuleType(self.modname)
